@@ -690,6 +690,8 @@ type reqSpec struct {
 	method string
 	path   string
 	hdr    map[string]string
+	// park after the first successful store read has been executed, before its reply is delivered
+	replyGate bool
 }
 
 func (s *stack) buildRequest(spec reqSpec, tid int) (*http.Request, chi.Router, context.CancelFunc) {
@@ -748,7 +750,7 @@ func (s *stack) buildRequest(spec reqSpec, tid int) (*http.Request, chi.Router, 
 // spawn starts the request goroutine and waits until it is blocked (gate, timer) or done.
 func (s *stack) spawn(tid int, spec reqSpec) *hthread {
 	req, rt, cancel := s.buildRequest(spec, tid)
-	th := &hthread{id: tid, gate: make(chan decision), cancel: cancel}
+	th := &hthread{id: tid, gate: make(chan decision), cancel: cancel, replyGate: spec.replyGate}
 	s.ctl.mu.Lock()
 	s.ctl.threads[tid] = th
 	s.ctl.mu.Unlock()
@@ -816,6 +818,62 @@ func (s *stack) runOne(tid int, fault int) (waited time.Duration, obs [][]int64,
 	th.obs = nil
 	s.ctl.mu.Unlock()
 	return time.Since(t0), obs, true
+}
+
+// runIfReady releases thread tid for one operation if it is parked at a gate right now; otherwise it reports whether the
+// thread has finished or is blocked on something that is not a store / lock / provider operation (e.g. on another request).
+func (s *stack) runIfReady(tid int) string {
+	th := s.ctl.thread(tid)
+	if th == nil {
+		return "none"
+	}
+	synctest.Wait()
+	s.ctl.mu.Lock()
+	at, done := th.atGate, th.done
+	s.ctl.mu.Unlock()
+	if done {
+		return "done"
+	}
+	if !at {
+		return "blocked"
+	}
+	th.gate <- decision{}
+	synctest.Wait()
+	return "ran"
+}
+
+// drainAll cancels every request that has not finished and keeps releasing gates until all request goroutines have ended
+// (a goroutine left parked at a gate would keep the synctest bubble from ending).
+func (s *stack) drainAll() {
+	s.ctl.mu.Lock()
+	var ths []*hthread
+	for _, th := range s.ctl.threads {
+		ths = append(ths, th)
+	}
+	s.ctl.mu.Unlock()
+	for _, th := range ths {
+		th.cancel()
+	}
+	for i := 0; i < 500; i++ {
+		synctest.Wait()
+		busy := false
+		for _, th := range ths {
+			s.ctl.mu.Lock()
+			at, done := th.atGate, th.done
+			s.ctl.mu.Unlock()
+			if done {
+				continue
+			}
+			busy = true
+			if at {
+				th.gate <- decision{}
+			}
+		}
+		if !busy {
+			return
+		}
+		time.Sleep(100 * time.Millisecond)
+	}
 }
 
 // ---------------------------------------------------------------- observations
